@@ -503,10 +503,10 @@ double Erfi(double x)
 double Inv_Erf(double p)
 {
 	// return inverfc(1.-p);
-	if(fabs(p - 1.0) < 1e-16)
+	if(fabs(fabs(p) - 1.0) < 1e-16)
 	{
-		std::cerr << "Warning in libphysica::Inv_erf(double): The argument p = " << p << " is very close to 1.0. Return 10." << std::endl;
-		return 10.0;
+		std::cerr << "Warning in libphysica::Inv_erf(double): The argument p = " << p << " is very close to +-1.0. Return +-10." << std::endl;
+		return (p > 0.0) ? 10.0 : -10.0;
 	}
 	else if(fabs(p) >= 1.0)
 	{
